@@ -31,7 +31,16 @@ def run(ctx, replay_case):
             odd += ds.pad_faults(c, b, L, rnd, ctx.tier)
             sf = ds.size_faults(c, b, L, rnd, ctx.tier)
             odd += sf if ctx.tier == "thorough" else rnd.sample(sf, min(len(sf), 6))
-    strict_cases = wf + corpus + odd
+    # ... and inputs with a field value outside its declared set: strict mode should reject them; if it accepts one, the events must
+    # still re-encode to it (seed C02h: a yes/no octet was normalised to 0/1 when the typed value was built, so 0x02 was accepted and
+    # re-encoded as 0x01)
+    oddv = []
+    wfv = [c for c in wf if c.kind in ("wf_cmd", "wf_rsp", "wf_struct")]
+    wfv = wfv if ctx.tier == "thorough" else rnd.sample(wfv, min(len(wfv), 400))
+    for c, b in zip(wfv, core.run_impl([c.op("S") for c in wfv])):
+        if b[-1].startswith("R done") and ds.widths_ok(b, L):
+            oddv += ds.value_faults(c, b, L, rnd, ctx.tier, limit=3)
+    strict_cases = wf + corpus + odd + oddv
     res = ds.run_both(strict_cases, "S", kind="DECU")
     impl, model = res["S"]
     ds.correspondence_violation(ctx, "DECU strict (events, re-encoding, slices)", strict_cases, "S", impl, model)
@@ -58,7 +67,7 @@ def run(ctx, replay_case):
     value_only = 0
     for c, b in zip(vf, wimpl):
         ws = [l for l in b if l.startswith("W ")]
-        if ws and all("ValueConstraintViolatedError" in l for l in ws) and b[-1].startswith("R done"):
+        if all("ValueConstraintViolatedError" in l for l in ws) and b[-1].startswith("R done"):      # value problems only (possibly none reported)
             value_only += 1
             u, s = b[-3], b[-2]
             if u != "U " + (c.data.hex() or "-") or s != "S ok":
